@@ -569,6 +569,10 @@ def generic_rules(ctx) -> None:
         ctx.chk.extra["unpacking_functions_scanned"] = wf
         if wf:
             ctx.chk.ok(f"{ctx.chk.prop}.wire-field-replaced", "anchor modules", f"{wf} functions that unpack wire fields scanned; no field read from the input is replaced by an unrelated value (1 guarded re-assignment)")
+        ig = generic2.index_guard_off_by_one(ctx, f"{ctx.chk.prop}.index-guard", files)
+        ctx.chk.extra["length_guards_scanned"] = ig
+        if ig:
+            ctx.chk.ok(f"{ctx.chk.prop}.index-guard", "anchor modules", f"{ig} raising guards against a length scanned; none admits the index equal to the length before the element access")
         dk = generic2.db_key_lookups(ctx, f"{ctx.chk.prop}.db-key-exists", files)
         ctx.chk.extra["database_lookups_scanned"] = dk
         if dk:
